@@ -5,5 +5,6 @@ CHECKS = {
     "C04": dict(engine=[dict(exe="e1_sig"), dict(exe="e2_headers", ns=True)], bins=["e1_sig", "e2_headers"], level="exploration", prebuild=["prebuild-ebpf"], tools=["unshare", "ip", "clang"]),
     "C05": dict(engine="e2_headers", bins=["e2_headers"], level="exploration", ns=True, prebuild=["prebuild-ebpf"], tools=["unshare", "ip", "clang"]),
     "C07": dict(engine="e2_attrib", bins=["e2_attrib"], level="model_checking", ns=True, prebuild=["prebuild-ebpf"], tools=["unshare", "ip", "clang"]),
+    "C11": dict(engine="e2_audit", bins=["e2_audit"], level="exploration", ns=True, prebuild=["prebuild-ebpf"], tools=["unshare", "ip", "clang"]),
     "C02": dict(engine="e1_rbac", bins=["e1_rbac"], level="exploration"),
 }
